@@ -441,29 +441,11 @@ theorem randomBranch_cases (nnz elements : Int) (dge1 : Bool) (_h0 : 0 ≤ nnz) 
   · left
     have : nnz = elements := by rcases c1 with h | h; exact h; exact hd h
     exact ⟨by simp only [Gen.randomBranch, c1, if_true], this⟩
-  · have hne : nnz ≠ elements := fun h => c1 (Or.inl h)
-    by_cases c2 : nnz < 2
-    · right; left
-      exact ⟨by simp only [Gen.randomBranch, c1, c2, if_true, if_false], c2, by omega⟩
-    · by_cases c3 : elements - nnz < 2
-      · right; right; left
-        exact ⟨by simp only [Gen.randomBranch, c1, c2, c3, if_true, if_false], by omega, by omega⟩
-      · by_cases c4 : nnz * 2 > elements
-        · -- reverse ∘ (algD | algA): whichever the inner test picks
-          have h : Gen.randomBranch nnz elements dge1 = (3, elements - nnz, elements)
-              ∨ Gen.randomBranch nnz elements dge1 = (4, elements - nnz, elements) := by
-            simp only [Gen.randomBranch, c1, c2, c3, c4, if_true, if_false]
-            split <;> simp
-          rcases h with h | h
-          · right; right; right; left; exact ⟨h, by omega, by omega⟩
-          · right; right; right; right; left; exact ⟨h, by omega, by omega⟩
-        · have h : Gen.randomBranch nnz elements dge1 = (5, nnz, elements)
-              ∨ Gen.randomBranch nnz elements dge1 = (6, nnz, elements) := by
-            simp only [Gen.randomBranch, c1, c2, c3, c4, if_true, if_false]
-            split <;> simp
-          rcases h with h | h
-          · right; right; right; right; right; left; exact ⟨h, by omega, by omega⟩
-          · right; right; right; right; right; right; exact ⟨h, by omega, by omega⟩
+  · -- every other leaf, whatever tests lead to it: the tuple identifies the disjunct, the path conditions give the rest
+    have hne : nnz ≠ elements := fun h => c1 (Or.inl h)
+    simp only [Gen.randomBranch, c1, if_false]
+    repeat' split
+    all_goals (simp only [Prod.mk.injEq, true_and, and_true]; omega)
 
 theorem random_idx (nnz elements : Int) (dge1 : Bool) (o : Oracle) (h0 : 0 ≤ nnz) (h1 : nnz ≤ elements)
     (hd : dge1 = true → nnz = elements) (ok : OracleOK nnz elements dge1 o) :
